@@ -184,10 +184,13 @@ Definition enter_rw (t : tid) (d : tmo) (g : gst) : gst * list tid * outcome :=
   | Some e =>
       if Nat.ltb 0 (e_rw e) || Nat.eqb (length (g_exec g)) 1
       then (mkG (S (g_total g)) (setv t (mkEnt (e_ro e) (S (e_rw e))) (g_exec g)) (g_wr g) (g_ww g) (g_pool g), [], Done SOk)
-      else (g, [], match e_ro e with
-                   | 0 => Call (AEnterRW d) (FInner 0)
-                   | S _ => Call AEnterUnRO (FDrop (e_ro e) 0 d)
-                   end)
+      else match d with
+           | Try => (g, [], Done STimedOut)     (* (fix F21) a non-blocking call neither gives its read locks up nor blocks re-taking them *)
+           | _ => (g, [], match e_ro e with
+                          | 0 => Call (AEnterRW d) (FInner 0)
+                          | S _ => Call AEnterUnRO (FDrop (e_ro e) 0 d)
+                          end)
+           end
   | None =>
       if ok_writer t g
       then (mkG (S (g_total g)) (setv t (mkEnt 0 1) (g_exec g)) (g_wr g) (g_ww g) (g_pool g), [], Done SOk)
@@ -306,34 +309,43 @@ Record sout := mkOut {
 Definition setc (t : tid) (c : nat) (l : list (tid * nat)) : list (tid * nat) :=
   match find t l with Some _ => setv t c l | None => l end.
 
+Definition keep (l : loc) (a : act) : loc := mkL a (l_stk l) (l_op l) (l_hro l) (l_hrw l).
+
+Definition wake_out (notified : bool) : sout := mkOut (Some notified) false [] None None.
+
+(* the thread takes _stateMutex and executes the critical section it stands in front of *)
+Definition run_cs (t : tid) (g : gst) (l : loc) : option (gst * loc * sout) :=
+  match cs t (l_act l) g with
+  | None => None
+  | Some (g', ns, Done s) =>
+      let (l', r) := complete l s in Some (g', l', mkOut None true ns None r)
+  | Some (g', ns, Parked a' k) => Some (g', keep l a', mkOut None true ns (Some k) None)
+  | Some (g', ns, Call a' f) =>
+      Some (g', mkL a' (f :: l_stk l) (l_op l) (l_hro l) (l_hrw l), mkOut None true ns None None)
+  end.
+
 Definition step (t : tid) (c : choice) (g : gst) (l : loc) : option (gst * loc * sout) :=
-  let wake (a : act) := Some (g, mkL a (l_stk l) (l_op l) (l_hro l) (l_hrw l), mkOut (Some false) false [] None None) in
-  match l_act l, c with
-  | AParkRO d, CRun =>
-      match find t (g_wr g) with
-      | Some (S _) => Some (set_wr g (setc t 0 (g_wr g)), mkL (AWokeRO d true) (l_stk l) (l_op l) (l_hro l) (l_hrw l),
-                            mkOut (Some true) false [] None None)
+  match c with
+  | CRun =>
+      match l_act l with
+      | AParkRO d =>          (* Wait() returns only when the counter is positive, and flushes it *)
+          match find t (g_wr g) with
+          | Some (S _) => Some (set_wr g (setc t 0 (g_wr g)), keep l (AWokeRO d true), wake_out true)
+          | _ => None
+          end
+      | AParkRW d =>
+          match find t (g_ww g) with
+          | Some (S _) => Some (set_ww g (setc t 0 (g_ww g)), keep l (AWokeRW d true), wake_out true)
+          | _ => None
+          end
+      | _ => run_cs t g l
+      end
+  | CTimeout =>               (* a timed Wait() may return B_TIMED_OUT at any moment; the counter is left alone *)
+      match l_act l with
+      | AParkRO Timed => Some (g, keep l (AWokeRO Timed false), wake_out false)
+      | AParkRW Timed => Some (g, keep l (AWokeRW Timed false), wake_out false)
       | _ => None
       end
-  | AParkRW d, CRun =>
-      match find t (g_ww g) with
-      | Some (S _) => Some (set_ww g (setc t 0 (g_ww g)), mkL (AWokeRW d true) (l_stk l) (l_op l) (l_hro l) (l_hrw l),
-                            mkOut (Some true) false [] None None)
-      | _ => None
-      end
-  | AParkRO Timed, CTimeout => wake (AWokeRO Timed false)
-  | AParkRW Timed, CTimeout => wake (AWokeRW Timed false)
-  | a, CRun =>
-      match cs t a g with
-      | None => None
-      | Some (g', ns, Done s) =>
-          let (l', r) := complete l s in Some (g', l', mkOut None true ns None r)
-      | Some (g', ns, Parked a' k) =>
-          Some (g', mkL a' (l_stk l) (l_op l) (l_hro l) (l_hrw l), mkOut None true ns (Some k) None)
-      | Some (g', ns, Call a' f) =>
-          Some (g', mkL a' (f :: l_stk l) (l_op l) (l_hro l) (l_hrw l), mkOut None true ns None None)
-      end
-  | _, CTimeout => None
   end.
 
 Definition act_of_op (o : op) : act :=
